@@ -14,7 +14,8 @@
      D:badmethod  unknown method on a routed path did not answer 400 (documented detail)
      D:allow      an Allow header where the decision has none (or vice versa) outside 405 / OPTIONS
      D:addroute   add_route refused a call the suffix rule accepts
-     H:conflict   the harness generated two different fields at one template position
+     H:conflict   the harness generated two different fields / two multi-field segments of one shape at one template position
+     H:template   the harness generated a template outside the vocabulary (WellFormedTmpl)
      H:sink       the harness generated a sink prefix outside the pattern language (WellFormedSink) *)
 EXTENDS Dispatch, Json, IOUtils
 
@@ -50,6 +51,7 @@ JudgeReq ==
    route), so whatever the wrongly accepted route answers later is judged as P:status / P:who / P:allow *)
 JudgeRoute ==
     IF ~Ev.ok /\ ~SuffixSelectsNothing(Kind, Ev.sfx) THEN "D:addroute"
+    ELSE IF ~WellFormedTmpl(Ev.tmpl) THEN "H:template"
     ELSE IF Ev.ok /\ ~ConflictFree(RoutesWith(Ev.tmpl, Ev.id, Kind, Ev.sfx)) THEN "H:conflict"
     ELSE "ok"
 
